@@ -346,6 +346,7 @@ fn gen_app(rng: &mut Rng) -> crate::net::NetScenario {
         stop_at_ns: None,
         stop_before: false,
         yields_before_stop: 0,
+        relisten: false,
         cap_ns: secs(90),
     }
 }
